@@ -5,7 +5,7 @@
 (* that is entered (class, member name, stream position), `Leave` pops it  *)
 (* with a value or an error.  The machine is driven either by the events   *)
 (* Sem prescribes (MC_* configurations) or by events recorded from the     *)
-(* real library (this module's Trace* actions), one event per state.       *)
+(* real library (CAM.tla), one event per state.                              *)
 (*                                                                         *)
 (* The machine-level properties need no semantics of the individual        *)
 (* classes: they relate the positions, values, error classes and paths of  *)
@@ -88,7 +88,7 @@ LeaveChecks(cs, stk, f, ev) ==
         ELSE <<>>)
     \* ---- C18: created here (no failing last child, or a different error) -> the path of this stack;
     \*           propagated from the failing last child -> unchanged
-    \o (IF ~ev.ok /\ IsConstructError(ev.err) /\ cs.op = f.op /\ ev.err \notin {"StopFieldError", "CancelParsing"} /\
+    \o (IF "model" \notin DOMAIN cs /\ ~ev.ok /\ IsConstructError(ev.err) /\ cs.op = f.op /\ ev.err \notin {"StopFieldError", "CancelParsing"} /\
            ~(\E i \in 1..Len(stk) : stk[i].k = "Compiled") /\
            ~( ev.path = PathAt(stk, rootop) \/ (nk > 0 /\ ~lastk.ok /\ ev.path = lastk.path) )
         THEN <<"C18.path">> ELSE <<>>)
